@@ -12,16 +12,22 @@ class Sched:
         self.sems = [threading.Semaphore(0) for _ in range(n)]
         self.main = threading.Semaphore(0)
         self.done = [False] * n
-        self.schedule = list(schedule)
+        self.schedule = list(schedule)  # thread choices, or (thread choice, run length) pairs
         self.pos = 0
+        self.left = 0
+        self.yields = 0
+        self.fine = False  # are function entries inside autograd yield points too (set by the caller)?
+        self.last_kind = [False] * n  # did thread i last stop at an autograd-internal yield point?
+        self.internal_switches = 0  # context switches away from a thread stopped inside autograd's own code
         self.tls = threading.local()
         self.switches = 0
         self.inside = [0] * n  # how many differentiations thread i is inside of (maintained by the programs)
         self.overlap = False
         self.nested_overlap = False
 
-    def yp(self):
+    def yp(self, internal=False):
         i = self.tls.i
+        self.last_kind[i] = internal
         self.main.release()
         self.sems[i].acquire()
 
@@ -50,11 +56,21 @@ class Sched:
         last = None
         while not all(self.done):
             alive = [i for i in range(self.n) if not self.done[i]]
-            ch = self.schedule[self.pos] if self.pos < len(self.schedule) else 0
-            self.pos += 1
-            i = alive[ch % len(alive)]
+            self.yields += 1
+            if self.left > 0 and last is not None and not self.done[last]:
+                self.left -= 1  # the current run of the same thread continues
+                i = last
+            else:
+                ch = self.schedule[self.pos] if self.pos < len(self.schedule) else 0
+                self.pos += 1
+                if isinstance(ch, (tuple, list)):
+                    ch, ln = ch
+                    self.left = max(0, ln - 1)
+                i = alive[ch % len(alive)]
             if last is not None and i != last:
                 self.switches += 1
+                if self.last_kind[last] and not self.done[last]:
+                    self.internal_switches += 1
                 active = [j for j in range(self.n) if self.inside[j] > 0]
                 if len(active) >= 2:
                     self.overlap = True
